@@ -217,6 +217,10 @@ def main(tier):
             run.broken.append('correspondence: printer level (pretty_call objects), %d disagreements' % len(dis))
             for c in dis[:2]:
                 run.sample({'disagreement': PC.case_json(c)})
+        ntok, tdis = PC.token_disagreements(res)
+        run.coverage['token_level_compared'] = ntok
+        if tdis:
+            run.broken.append('correspondence: token level (ast of pformat text vs ast of etoks(expr_of v)): ' + tdis[-1][:60])
         for c in res:
             msg = call_oracle(c)
             if msg and len(run.violations) < 3:
